@@ -61,8 +61,15 @@ pub struct Hop {
 fn send_and_lex(f: Flow<(), Prepare>) -> Option<(crate::drv_req::LexedHead, Flow<(), RecvResponse>)> {
     let mut buf = vec![0u8; 16384];
     let mut f = f.proceed();
-    let n = guarded(|| f.write(&mut buf))?.ok()?;
-    let lh = lex_head(&buf[..n]);
+    let mut acc: Vec<u8> = vec![];
+    for _ in 0..400 {
+        if guarded(|| f.can_proceed())? {
+            break;
+        }
+        let n = guarded(|| f.write(&mut buf))?.ok()?;
+        acc.extend(&buf[..n]);
+    }
+    let lh = lex_head(&acc);
     let rr = match guarded(|| f.proceed())?.ok()?? {
         SendRequestResult::RecvResponse(f) => f,
         SendRequestResult::SendBody(f) => crate::fx::finish_body(f)?,
